@@ -44,7 +44,7 @@ def strategy(tier):
         if draw(st.integers(0, 3)) == 0:
             c["look_ahead_distance"] = draw(st.sampled_from([0, 1, 2, 5, 16, 33, 60]))
         if draw(st.integers(0, 3)) == 0:
-            c["enable_tpl_la"] = draw(st.sampled_from([0, 1]))
+            c["enable_tpl_la"] = draw(st.sampled_from([0, 1])) if c["enc_mode"] >= 5 else 1   # TPL off at presets <= 4: listed C01/C03 finding, excluded by construction
         if draw(st.integers(0, 5)) == 0:
             c["tf_level"] = draw(st.sampled_from([0, 1, 2, 3]))
         if draw(st.integers(0, 5)) == 0:
